@@ -23,6 +23,7 @@ Theorem C19_missing_or_unknown_type_raises :
     from_gsd num geo faces conv reorder half (SMissing num geo faces) dims = None
     /\ from_gsd num geo faces conv reorder half (SUnknown num geo faces) dims = None.
 Proof. intros. apply gsd_bad_type_raises. Qed.
+Print Assumptions C19_missing_or_unknown_type_raises.
 
 (* the executable class dispatch (run against the implementation on every spec) gives, for the spec
    each class writes, that class or a subclass of it *)
